@@ -34,6 +34,7 @@ type world struct {
 	accts   [][]byte
 	addrs   []common.Address
 	txSeq   uint64
+	root    common.Hash // last committed state root (what a discarded block execution falls back to)
 }
 
 func newWorld(height uint64) *world {
@@ -219,9 +220,22 @@ func (w *world) endBlock(next uint64) string {
 		return "reopen-error"
 	}
 	w.adb = adb
+	w.root = root
 	w.height = next
 	w.heights = append(w.heights, next)
 	common.SetBlockHeight(next)
+	w.newCtx()
+	return "ok"
+}
+
+// rewind discards the block being executed (as when a cast block is not adopted or a fork is abandoned): a fresh
+// AccountDB over the last committed root, a fresh context. Whatever lives outside the account state stays.
+func (w *world) rewind() string {
+	adb, err := account.NewAccountDB(w.root, w.triedb)
+	if err != nil {
+		return "reopen-error"
+	}
+	w.adb = adb
 	w.newCtx()
 	return "ok"
 }
@@ -476,6 +490,8 @@ func (ip *interp) exec(line string) string {
 		}
 		op := map[string]byte{"vmstake": 0xee, "vmunstake": 0xef, "vmunstakeall": 0xeb}[t[0]]
 		return w.runStakeOp(op, bs(t[1]), bs(t[2]), amt)
+	case "rewind":
+		return w.rewind()
 	case "endblock":
 		return w.endBlock(u64(t[1]))
 	case "dump":
